@@ -106,7 +106,9 @@ def gate_list():
         out.append((nm, {"theta": True}))
     out += [("CZ", {}), ("CNOT", {"target_qubit": 0}), ("CNOT", {"target_qubit": 1}), ("CZ_Heralded", {}),
             ("CNOT_Heralded", {"target_qubit": 0}), ("CNOT_Heralded", {"target_qubit": 1}),
-            ("CCZ", {}), ("CCNOT", {"target_qubit": 0}), ("CCNOT", {"target_qubit": 1}), ("CCNOT", {"target_qubit": 2})]
+            ("CCZ", {}), ("CCNOT", {"target_qubit": 0}), ("CCNOT", {"target_qubit": 1}), ("CCNOT", {"target_qubit": 2}),
+            # the documented defaults when no target is named: the last qubit (CNOT, CNOT_Heralded: qubit 1; CCNOT: qubit 2)
+            ("CNOT", {}), ("CNOT_Heralded", {}), ("CCNOT", {})]
     return out
 
 
@@ -114,7 +116,7 @@ def run_one(env, nm, opts):
     from lightworks import qubit
     from fractions import Fraction
     fixed = ",".join(f"{k}={v}" for k, v in opts.items() if k != "theta")
-    label = nm + (f"({fixed})" if fixed else "") + ("(theta)" if opts.get("theta") else "")
+    label = nm + (f"({fixed})" if fixed else "") + ("(theta)" if opts.get("theta") else "") + ("(default target)" if nm in ("CNOT", "CNOT_Heralded", "CCNOT") and not opts else "")
     if nm in ("CZ", "CNOT", "CZ_Heralded", "CNOT_Heralded", "CCZ", "CCNOT"):
         circ = getattr(qubit, nm)(**opts)
         n = 3 if nm.startswith("CC") else 2
@@ -170,14 +172,21 @@ def unit(mode="exact", tier="quick", seed=0, which=None, assignment=None):
         from vf.xlift import hook
         for nm, opts in todo:
             npaths = 0
-            for path, log, res in hook.run_paths(lambda: _one(nm, opts, mode, None)):
-                npaths += 1
-                if res[0] == "exc":
-                    obligations.append(dict(name=f"lightworks/qubit/gates:{nm}{opts}#xsym.runs", kind="xsym", result="refuted",
-                                            backend="xlift", ms=0, note=f"constructor/compile raised {type(res[1]).__name__}: {res[1]}",
-                                            model={"gate": nm, "opts": opts}))
-                else:
-                    obligations += res[1]
+            from vf.xlift.field import Undecided
+            try:
+                for path, log, res in hook.run_paths(lambda: _one(nm, opts, mode, None)):
+                    npaths += 1
+                    if res[0] == "exc":
+                        obligations.append(dict(name=f"lightworks/qubit/gates:{nm}{opts}#xsym.runs", kind="xsym", result="refuted",
+                                                backend="xlift", ms=0, note=f"constructor/compile raised {type(res[1]).__name__}: {res[1]}",
+                                                model={"gate": nm, "opts": opts}))
+                    else:
+                        obligations += res[1]
+            except Undecided as e:
+                # the gate's code takes a decision that the symbolic angle cannot settle (rounding / floor of theta): this variant is undecided for all
+                # angles at once - the concrete-angle unit (special and generic angles of both signs) still covers it
+                obligations.append(dict(name=f"lightworks/qubit/gates:{nm}{opts}#xsym.matrix", kind="xsym", result="unknown", backend="xlift", ms=0,
+                                        reason=f"symbolic run undecided: {e}", note="named gate matrix for every angle"))
             functions.append(dict(function=f"lightworks/qubit/gates:{nm}", mechanism="xlift", paths=npaths))
         swaps = swap_cases() if tier == "thorough" else swap_cases()[::7]
         for q1, q2 in swaps:
@@ -261,3 +270,45 @@ def unit_sequences(tier="quick", seed=0):
         o["model"] = dict(case=fails[0][0], observed=fails[0][1], n_failing=len(fails))
         o["replayed"] = f"{len(fails)} of {n} constructions fail; first {fails[0][0]}: {fails[0][1]}"
     return dict(status="ok", obligations=[o], summary=f"{n} gate constructions in sequence")
+
+
+
+def unit_angles(tier="quick", seed=0):
+    """C13, native floats: the rotation gates at concrete angles - every multiple of pi/4 from -4 pi to 4 pi (where special-casing would sit), angles a hair
+    beside them, and generic angles of both signs: the dual-rail action is one unit-modulus scalar times the named matrix (1e-10)."""
+    import cmath
+    import math
+    import numpy as np
+    import lightworks as lw
+    from lightworks import emulator, qubit
+    fails, n = [], 0
+
+    def ref(nm, th):
+        c, s_ = math.cos(th / 2), math.sin(th / 2)
+        return {"P": np.array([[1, 0], [0, cmath.exp(1j * th)]]), "Rz": np.array([[cmath.exp(-1j * th / 2), 0], [0, cmath.exp(1j * th / 2)]]),
+                "Rx": np.array([[c, -1j * s_], [-1j * s_, c]]), "Ry": np.array([[c, -s_], [s_, c]])}[nm]
+    angles = [k * math.pi / 4 for k in range(-16, 17)]
+    angles += [a + d for a in (math.pi, -math.pi, math.pi / 2, -math.pi / 2, 2 * math.pi, -math.pi / 4) for d in (1e-7, -1e-7, 3e-6, -3e-6)]
+    angles += [0.3, -0.3, 1.234, -2.2, 5.9, -7.7, 11 * math.pi / 2, -15 * math.pi / 2]
+    for nm in ("P", "Rx", "Ry", "Rz"):
+        for th in angles:
+            n += 1
+            try:
+                g = getattr(qubit, nm)(th)
+                sim = emulator.Simulator(g)
+                A = np.array(sim.simulate([lw.State([1, 0]), lw.State([0, 1])], [lw.State([1, 0]), lw.State([0, 1])]).array).T      # A[out, in]
+            except Exception as e:  # noqa: BLE001
+                fails.append((dict(gate=nm, theta=th), f"raised {type(e).__name__}: {e}"))
+                continue
+            R = ref(nm, th)
+            i, j = np.unravel_index(np.argmax(np.abs(R)), R.shape)
+            sc = A[i, j] / R[i, j]
+            if abs(abs(sc) - 1) > 1e-10 or np.abs(A - sc * R).max() > 1e-10:
+                fails.append((dict(gate=nm, theta=th), f"{nm}({th}) acts as {np.round(A, 6).tolist()}, not a unit scalar times {np.round(R, 6).tolist()}"))
+    o = dict(name="lightworks/qubit/gates:rotation-gates#bnd.concrete-angles", kind="bnd", cases=n, result="bounded-fail" if fails else "bounded-pass",
+             backend="native floats (1e-10)", ms=0, note="P, Rx, Ry, Rz at all multiples of pi/4 in [-4pi, 4pi], neighbours of special angles, generic angles of both signs")
+    if fails:
+        o["failing_cases"] = [str(f[0]) for f in fails[:20]]
+        o["model"] = dict(case=fails[0][0], observed=fails[0][1], n_failing=len(fails))
+        o["replayed"] = f"{len(fails)} of {n} angles fail; first {fails[0][0]}: {fails[0][1]}"
+    return dict(status="ok", obligations=[o], summary=f"rotation gates at {n} concrete angles")
